@@ -353,6 +353,41 @@ def sequence_case(min_saves, max_saves, max_loads, max_faults):
     )
 
 
+def large_case():
+    """Archive entries of tens of megabytes (many grains x many snapshots; the serialised
+    orientation array of n grains x k snapshots takes 72 n k bytes), saved under a postfix next
+    to a small mineral and as a whole file, loaded back through both loaders."""
+    big = st.fixed_dictionaries(
+        {
+            "phase": st.integers(0, 1),
+            "fabric": st.integers(0, 5),
+            "regime": st.integers(0, 7),
+            "n": st.integers(2000, 9000),
+            "mib": st.sampled_from([12, 17, 24, 33, 40]),
+            "seed": gen.small_seed,
+            "kind": st.sampled_from(["bits", "texture"]),
+        }
+    ).map(lambda d: dict({k: v for k, v in d.items() if k != "mib"}, steps=max(1, int(d["mib"] * 2**20 / (72 * d["n"])) + 1)))
+    small = mineral_data()
+    return st.builds(
+        lambda b, sm, pf1, pf2, how: {
+            "ops": [
+                {"op": "save", "file": 0, "pf": pf1, "m": sm},
+                {"op": "save", "file": 0, "pf": pf1 + "_" + pf2, "m": b},
+                {"op": "save", "file": 1, "pf": None, "m": b},
+                {"op": "load", "pick": 1, "into_n": 3, "how": how},
+                {"op": "load", "pick": 0, "into_n": 3, "how": "from_file"},
+                {"op": "load", "pick": 2, "into_n": 3, "how": "load"},
+            ]
+        },
+        big,
+        small,
+        postfix,
+        postfix,
+        st.sampled_from(["load", "from_file"]),
+    )
+
+
 def make_machine(hooks):
     """Hypothesis rule-based state machine over the same executor (`ArchiveRunner`): rules are
     the operations, preconditions depend on the model state, the recoverability invariant runs
@@ -427,6 +462,7 @@ ORACLES = [
     Oracle("stateful_machine", None, check_sequence, classify=classify, machine=make_machine, machine_steps=25, quick=60, thorough=300),
     Oracle("save_load_sequence", sequence_case(1, 8, 10, 3), check_sequence, classify=classify, quick=160, thorough=1500),
     Oracle("save_load_many_postfixes", sequence_case(4, 8, 12, 2), check_sequence, classify=classify, quick=80, thorough=1000),
+    Oracle("large_entries", large_case(), check_sequence, classify=lambda c: "large", quick=4, thorough=16),
     Oracle("save_load_sequence_long", sequence_case(8, 20, 30, 6), check_sequence, classify=classify, quick=0, thorough=200),
 ]
 SHARDS = {"quick": 4, "thorough": 16}
